@@ -19,8 +19,11 @@ counterpart in the reference tree, both sides are brought into a normal form by 
     is flattened; a result variable assigned at the end of every branch and returned afterwards becomes returns in the
     branches; explicit loops that only `return True/False` on a test become any()/all(); `out = []; for ..: out.append(e)`
     becomes a comprehension; redundant `continue`/`pass` are dropped; tuple assignments without cross dependencies are split;
-  * single-assignment temporaries that are used once, in the next statement, before anything with a side effect is
-    evaluated, are inlined;
+  * every local and parameter is split into its def-use webs (reaching definitions over the structured statements), so
+    re-binding a parameter, reusing a name and introducing a fresh local are the same thing;
+  * temporaries that are read once, in the next statement, before anything with a side effect is evaluated, are inlined;
+    pure common-subexpression temporaries and copies of a name that is dead afterwards are propagated; tuples that are
+    only packed and unpacked in full are scalarised; runs of independent pure assignments get one canonical order;
   * finally the locals (not the parameters) are renamed in order of first occurrence.
 
 If the two normal forms are identical, the current code is equivalent to the reference shape and the rules are evaluated on
@@ -1765,239 +1768,6 @@ def _webs(fn):
                 for h in st.handlers:
                     fix_aug(h.body)
     fix_aug(fn.body)
-
-
-def _joined(iff):
-    """names that every path through the `if` which falls through assigns exactly once, by a simple statement at the top level of its branch
-    (so after the `if` the name holds `the value assigned in the branch taken`)"""
-    if not iff.orelse:
-        return set()
-    sets = []
-    for branch in (iff.body, iff.orelse):
-        if _exits(branch):
-            continue
-        cnt, nested = {}, set()
-        for st in branch:
-            t = None
-            if isinstance(st, ast.Assign) and len(st.targets) == 1 and isinstance(st.targets[0], ast.Name):
-                t = st.targets[0].id
-            elif isinstance(st, ast.AugAssign) and isinstance(st.target, ast.Name):
-                t = st.target.id
-            if t is not None:
-                cnt[t] = cnt.get(t, 0) + 1
-                continue
-            for n in ast.walk(st):
-                if isinstance(n, ast.Name) and isinstance(n.ctx, (ast.Store, ast.Del)):
-                    nested.add(n.id)
-        sets.append({nm for nm, c in cnt.items() if c == 1 and nm not in nested})
-    if not sets:
-        return set()
-    out = set(sets[0])
-    for x in sets[1:]:
-        out &= x
-    return out
-
-
-def _versions(fn):
-    """Simple assignments to a local or a parameter in *version-safe* positions give the name a fresh version:
-    `time = f(time); g(time)` becomes `time#1 = f(time); g(time#1)`, `v = a; v &= m` becomes `v#1 = a; v#2 = v#1 & m`.
-    A position is version-safe for name x when the assignment's value can only be seen by the statements that follow it in its own block:
-      * the block is the function body, or a branch of an `if` that always leaves the function, or a branch of an `if` (outside loops)
-        after which x is never read again; all enclosing blocks up to the function body must be of these kinds as well;
-      * every assignment to x in a position that is not version-safe comes earlier in the source (so the versioned stores dominate the
-        rest), and x is not captured by a nested function, global, a loop / with / except target, or bound by try bodies.
-    This is plain renaming; it makes re-binding a parameter, introducing a new local for the same value, and accumulating into a name in
-    several steps indistinguishable once temporaries are inlined."""
-    captured = _captured(fn)
-    serial = {}
-    counter = [0]
-    loads = {}          # name -> [serial of the statement that reads it]
-    last_bad = {}
-
-    def simple_target(st):
-        if isinstance(st, ast.Assign) and len(st.targets) == 1 and isinstance(st.targets[0], ast.Name):
-            return st.targets[0]
-        if isinstance(st, ast.AugAssign) and isinstance(st.target, ast.Name):
-            return st.target
-        return None
-
-    def note_loads(node, k):
-        for n in ast.walk(node):
-            if isinstance(n, ast.Name) and isinstance(n.ctx, ast.Load):
-                loads.setdefault(n.id, []).append(k)
-
-    def number(stmts):
-        for st in stmts:
-            counter[0] += 1
-            k = serial[id(st)] = counter[0]
-            if isinstance(st, ast.If):
-                note_loads(st.test, k)
-                number(st.body)
-                number(st.orelse)
-            elif isinstance(st, (ast.For, ast.While, ast.With, ast.Try)):
-                hdr = [st.iter] if isinstance(st, ast.For) else [st.test] if isinstance(st, ast.While) else [i.context_expr for i in st.items] if isinstance(st, ast.With) else []
-                for h in hdr:
-                    note_loads(h, k)
-                number(st.body)
-                if isinstance(st, ast.Try):
-                    for h in st.handlers:
-                        number(h.body)
-                    number(st.finalbody)
-                number(getattr(st, "orelse", []) or [])
-            else:
-                note_loads(st, k)
-                if isinstance(st, ast.AugAssign) and isinstance(st.target, ast.Name):
-                    loads.setdefault(st.target.id, []).append(k)
-            counter[0] += 1
-            serial[("end", id(st))] = counter[0]
-    number(fn.body)
-
-    loop_end = [0]
-
-    def bad(name, k):
-        last_bad[name] = max(last_bad.get(name, 0), k, loop_end[0])
-
-    def scan(stmts, safe_for):
-        """safe_for: None = safe for every name; set() = for none; else callable name -> bool"""
-        for st in stmts:
-            k = serial[id(st)]
-            tg = simple_target(st)
-            if tg is not None:
-                if not safe_for(tg.id):
-                    bad(tg.id, k)
-                for n in ast.walk(st.value):
-                    if isinstance(n, ast.NamedExpr) and isinstance(n.target, ast.Name):
-                        bad(n.target.id, k)
-                continue
-            if isinstance(st, ast.If):
-                for n in ast.walk(st.test):
-                    if isinstance(n, ast.NamedExpr) and isinstance(n.target, ast.Name):
-                        bad(n.target.id, k)
-                end = serial[("end", id(st))]
-                joined = _joined(st)
-                for branch in (st.body, st.orelse):
-                    if _exits(branch):
-                        scan(branch, safe_for)
-                    else:
-                        scan(branch, (lambda nm, sf=safe_for, e=end, j=joined: sf(nm) and sf is not never and not in_loop[0]
-                                      and (nm in j or not any(x > e for x in loads.get(nm, ())))))
-                continue
-            if isinstance(st, ast.Try):
-                e = serial[("end", id(st))]
-                for n in ast.walk(st):
-                    if isinstance(n, ast.Name) and isinstance(n.ctx, (ast.Store, ast.Del)):
-                        bad(n.id, e)
-                    if isinstance(n, ast.ExceptHandler) and n.name:
-                        bad(n.name, e)
-                continue
-            if isinstance(st, (ast.For, ast.While, ast.With)):
-                hdr = [st.target] if isinstance(st, ast.For) else [i.optional_vars for i in st.items if i.optional_vars is not None] if isinstance(st, ast.With) else []
-                e = serial[("end", id(st))]
-                for h in hdr:
-                    for n in ast.walk(h):
-                        if isinstance(n, ast.Name):
-                            bad(n.id, e)
-                was, was_end = in_loop[0], loop_end[0]
-                if not isinstance(st, ast.With):
-                    in_loop[0] = True
-                    loop_end[0] = max(loop_end[0], e)
-                scan(st.body, never if not isinstance(st, ast.With) else safe_for)
-                scan(getattr(st, "orelse", []) or [], never if not isinstance(st, ast.With) else safe_for)
-                in_loop[0], loop_end[0] = was, was_end
-                continue
-            for n in ast.walk(st):
-                if isinstance(n, ast.Name) and isinstance(n.ctx, (ast.Store, ast.Del)):
-                    bad(n.id, 10 ** 9 if isinstance(n.ctx, ast.Del) else k)
-                if isinstance(n, (ast.Global, ast.Nonlocal)):
-                    for nm in n.names:
-                        bad(nm, 10 ** 9)
-                if isinstance(n, (ast.Import, ast.ImportFrom)):
-                    for a in n.names:
-                        bad((a.asname or a.name).split(".")[0], 10 ** 9)
-
-    def always(nm):
-        return True
-
-    def never(nm):
-        return False
-    in_loop = [False]
-    scan(fn.body, always)
-    count = {}
-
-    def process(stmts, cur, safe_for, looping):
-        out = []
-        for st in stmts:
-            k = serial.get(id(st), 0)
-            tg = simple_target(st)
-            if tg is not None and tg.id not in captured and safe_for(tg.id) and k > last_bad.get(tg.id, 0):
-                nm = tg.id
-                if isinstance(st, ast.Assign):
-                    val = _RenameAll(dict(cur)).visit(st.value)
-                else:
-                    val = ast.BinOp(left=ast.Name(id=cur.get(nm, nm), ctx=ast.Load()), op=st.op, right=_RenameAll(dict(cur)).visit(st.value))
-                count[nm] = count.get(nm, 0) + 1
-                new = f"{nm}#{count[nm]}"
-                cur[nm] = new
-                out.append(ast.Assign(targets=[ast.Name(id=new, ctx=ast.Store())], value=val))
-                continue
-            if isinstance(st, ast.If):
-                test = _RenameAll(dict(cur)).visit(st.test)
-                end = serial.get(("end", id(st)), 0)
-                joined = {nm for nm in _joined(st) if nm not in captured and safe_for(nm) and safe_for is not never and not looping and k > last_bad.get(nm, 0)}
-                shared = {}
-                for nm in sorted(joined):
-                    count[nm] = count.get(nm, 0) + 1
-                    shared[nm] = f"{nm}#{count[nm]}"
-                brs = []
-                for branch in (st.body, st.orelse):
-                    if _exits(branch):
-                        brs.append(process(branch, dict(cur), safe_for, looping))
-                    else:
-                        sf = (lambda nm, sf=safe_for, e=end, lp=looping, j=joined: nm not in j and sf(nm) and sf is not never and not lp and not any(x > e for x in loads.get(nm, ())))
-                        c2 = dict(cur)
-                        new_branch = []
-                        for b in process_join(branch, c2, sf, looping, shared):
-                            new_branch.append(b)
-                        brs.append(new_branch)
-                out.append(ast.If(test=test, body=brs[0], orelse=brs[1]))
-                cur.update(shared)
-                continue
-            if isinstance(st, (ast.For, ast.While, ast.With)):
-                st2 = copy.copy(st)
-                if isinstance(st, ast.For):
-                    st2.iter = _RenameAll(dict(cur)).visit(st.iter)
-                elif isinstance(st, ast.While):
-                    st2.test = _RenameAll(dict(cur)).visit(st.test)
-                else:
-                    st2.items = [_RenameAll(dict(cur)).visit(i) for i in st.items]
-                loop = not isinstance(st, ast.With)
-                if loop:
-                    st2.body = process(st.body, dict(cur), never, True)
-                    if getattr(st, "orelse", None):
-                        st2.orelse = process(st.orelse, dict(cur), never, True)
-                else:
-                    st2.body = process(st.body, cur, safe_for, looping)
-                out.append(st2)
-                continue
-            out.append(_RenameAll(dict(cur)).visit(st))
-        return out
-    def process_join(stmts, cur, safe_for, looping, shared):
-        """like process(), but the (single, top-level) store of each name in `shared` writes the shared version"""
-        out = []
-        for st in stmts:
-            tg = simple_target(st)
-            if tg is not None and tg.id in shared:
-                nm = tg.id
-                if isinstance(st, ast.Assign):
-                    val = _RenameAll(dict(cur)).visit(st.value)
-                else:
-                    val = ast.BinOp(left=ast.Name(id=cur.get(nm, nm), ctx=ast.Load()), op=st.op, right=_RenameAll(dict(cur)).visit(st.value))
-                cur[nm] = shared[nm]
-                out.append(ast.Assign(targets=[ast.Name(id=shared[nm], ctx=ast.Store())], value=val))
-            else:
-                out.extend(process([st], cur, safe_for, looping))
-        return out
-    fn.body = process(fn.body, {}, always, False)
 
 
 # ----------------------------------------------------------------------------------------------------- normal form
